@@ -33,6 +33,7 @@ type User struct {
 	Released bool
 	Approvals int
 	PausedByUser bool
+	ExitNoBR bool
 	retryAt time.Time
 	ExitUnclaimed bool // an exit was requested while no BatchRelease held the workload
 	ReissuedID bool // rollout-id changed without a template change during the release
@@ -199,6 +200,9 @@ func reached(ro *v1beta1.Rollout, ev *UserEvent) bool {
 	if ro.Status.Phase != v1beta1.RolloutPhaseProgressing {
 		return false
 	}
+	if strings.HasSuffix(ev.Kind, "-late") {
+		return false // handled separately: fires once the release is over
+	}
 	if strings.HasSuffix(ev.Kind, "-early") {
 		// fires while the rollout is still initialising (the user changes his mind within seconds)
 		return progressingReason(ro) == v1alpha1.ProgressingReasonInitializing
@@ -233,7 +237,14 @@ func (u *User) eventOptions(ro *v1beta1.Rollout) []option {
 			}
 			continue
 		}
-		if ev.After != "" {
+		if strings.HasSuffix(ev.Kind, "-late") {
+			if ro.Status.Phase != v1beta1.RolloutPhaseHealthy || !u.Released || ro.Status.GetSubStatus() == nil || ro.Status.GetSubStatus().CurrentStepState != v1beta1.CanaryStepStateCompleted {
+				continue
+			}
+			if c := rutil.GetRolloutCondition(ro.Status, v1beta1.RolloutConditionSucceeded); c == nil {
+				continue
+			}
+		} else if ev.After != "" {
 			// follow-up of an earlier event: fires some time after it
 			if !u.doneKinds[ev.After] || u.sim.Now().Before(u.doneAt[ev.After].Add(time.Duration(ev.Arg)*time.Second)) {
 				continue
@@ -288,6 +299,9 @@ func (u *User) fire(ev *UserEvent) {
 		// fact for the exit oracles: was the workload under BatchRelease control when the exit was requested?
 		if wl := u.getWorkload(); wl != nil && controlledByUID(wl) == "" {
 			u.ExitUnclaimed = true
+			if u.sim.Store.Peek(ObjKey{GK: gkBR, NS: u.sc.NS, Name: u.sc.Name + "-ro"}) == nil {
+				u.ExitNoBR = true // no BatchRelease object exists at all at that moment
+			}
 		}
 	}
 	switch ev.Kind {
@@ -414,7 +428,19 @@ func (u *User) fire(ev *UserEvent) {
 			return
 		}
 		u.Disturbed = true
-	case "delete-rollout":
+	case "shrink-plan-late":
+		// while Healthy the number of steps may be changed
+		ro := u.getRollout()
+		if ro == nil {
+			return
+		}
+		if ro.Spec.Strategy.Canary != nil && len(ro.Spec.Strategy.Canary.Steps) > 1 {
+			ro.Spec.Strategy.Canary.Steps = ro.Spec.Strategy.Canary.Steps[:len(ro.Spec.Strategy.Canary.Steps)-1]
+		}
+		if webhookDown(u.h.Update(u.ctx, ro)) {
+			return
+		}
+	case "delete-rollout", "delete-rollout-late":
 		ro := u.getRollout()
 		if ro == nil {
 			return
